@@ -168,6 +168,8 @@ OpOf(m) ==
     [] m = "GetBucketLifecycleConfiguration" -> "GetBucketLifecycle"
     [] m = "PutBucketLifecycleConfiguration" -> "PutBucketLifecycle"
     [] m = "DeleteBucketLifecycleConfiguration" -> "DeleteBucketLifecycle"
+    [] m = "GetBucketNotificationConfiguration" -> "GetBucketNotification"   \* (no constant in the code yet)
+    [] m = "PutBucketNotificationConfiguration" -> "PutBucketNotification"
     [] OTHER -> m
 
 \* the LOG details the middleware records for call c in a phase.
